@@ -8,7 +8,7 @@ worktree). Two jobs:
 Results go to /verif/notes/seeded_confirm.json / seeded_detect.json."""
 import json, os, subprocess, sys, shutil, time
 
-SRC = "/tmp/seed"
+SRC = os.environ.get("SEEDED_SRC", "/tmp/seed")
 # id, k, demo file, destination in worktree (None = external script), run command, checks to run
 T = [
  ("C01", 1, "demo1.rs", "server/tests/c01_demo1.rs", "cargo test --offline -p server --test c01_demo1", ["C01", "C17"]),
@@ -97,10 +97,25 @@ T4 = [
  ("R4_C05_3", "C05", 3, [("demo3.rs", "server/tests/r4_demo3.rs")], "cargo test --offline -p server --features verif --test r4_demo3", ["C05", "C16", "C11", "C08"]),
 ]
 
+T5 = [
+ ("R5_C09_1", "A", 1, [("demo1.rs", "solution/tests/demo1.rs")], "cargo test -p solution --offline --test demo1", ["C09", "C12", "C13"]),
+ ("R5_C10_2", "A", 2, [("demo2.rs", "solution/tests/demo2.rs")], "cargo test -p solution --offline --test demo2", ["C10", "C13", "C02"]),
+ ("R5_C10_3", "A", 3, [("demo3.rs", "solution/tests/demo3.rs")], "cargo test -p solution --offline --test demo3", ["C10", "C12", "C13"]),
+ ("R5_C12_1", "B", 1, [("demo1.rs", "solution/tests/demo1.rs")], "cargo test -p solution --offline --test demo1", ["C12", "C10"]),
+ ("R5_C15_2", "B", 2, [("demo2.rs", "solution/tests/demo2.rs")], "cargo test -p solution --offline --test demo2", ["C15", "C09", "C11", "C04"]),
+ ("R5_C17_3", "B", 3, [("demo3.rs", "model/tests/demo3.rs")], "cargo test -p model --offline --test demo3", ["C17", "C01"]),
+ ("R5_C14_1", "C", 1, [("demo1.rs", "solver/tests/demo1.rs")], "cargo test -p solver --offline --test demo1", ["C14"]),
+ ("R5_C04_2", "C", 2, [("demo2.rs", "solver/tests/demo2.rs")], "cargo test -p solver --offline --test demo2", ["C04", "C09", "C11", "C15"]),
+ ("R5_C03_3", "C", 3, [("demo3.rs", "server/tests/demo3.rs")], "cargo test -p server --offline --test demo3", ["C03"]),
+ ("R5_C11_1", "D", 1, [("demo1.rs", "solver/tests/demo1.rs")], "cargo test -p solver --offline --test demo1", ["C11", "C08", "C09", "C15"]),
+ ("R5_C16_2", "D", 2, [("demo2.rs", "server/tests/demo2.rs")], "cargo test -p server --offline --test demo2", ["C16", "C03"]),
+ ("R5_C08_3", "D", 3, [("demo3.rs", "solver/tests/demo3.rs")], "cargo test -p solver --offline --test demo3", ["C08"]),
+]
+
 def confirm2(only):
     path = "/verif/notes/seeded2_confirm.json"
     res = json.load(open(path)) if os.path.exists(path) else {}
-    for (key, wtid, k, demos, cmd, _checks) in T2 + T3 + T4:
+    for (key, wtid, k, demos, cmd, _checks) in T2 + T3 + T4 + T5:
         if only and key not in only:
             continue
         wt = "%s/%s" % (SRC, wtid); out = "%s/%s-out" % (SRC, wtid)
@@ -132,7 +147,7 @@ def detect2(only):
     res = json.load(open(path)) if os.path.exists(path) else {}
     if sh("git -C /repo diff --quiet")[0] != 0:
         print("/repo dirty"); sys.exit(2)
-    for (key, wtid, k, demos, cmd, checks) in T2 + T3 + T4:
+    for (key, wtid, k, demos, cmd, checks) in T2 + T3 + T4 + T5:
         if only and key not in only:
             continue
         diff = "%s/%s-out/change%d.diff" % (SRC, wtid, k)
